@@ -416,7 +416,8 @@ func unmarkDeadControlFlow(
 			unmarkDeadControlFlow(fn, sk.Reject, deadLocals, live, localPtrs)
 
 			if blockWillBeEmpty(fn, sk.Accept, deadLocals, live, localPtrs) &&
-				blockWillBeEmpty(fn, sk.Reject, deadLocals, live, localPtrs) {
+				blockWillBeEmpty(fn, sk.Reject, deadLocals, live, localPtrs) &&
+				!selectsLivePhi(fn, block, i, live) {
 				// Both branches dead — unmark the condition.
 				unmarkExpr(fn, sk.Condition, live)
 			}
@@ -429,7 +430,7 @@ func unmarkDeadControlFlow(
 					allEmpty = false
 				}
 			}
-			if allEmpty {
+			if allEmpty && !selectsLivePhi(fn, block, i, live) {
 				unmarkExpr(fn, sk.Selector, live)
 			}
 
@@ -441,6 +442,35 @@ func unmarkDeadControlFlow(
 			unmarkDeadControlFlow(fn, sk.Block, deadLocals, live, localPtrs)
 		}
 	}
+}
+
+// selectsLivePhi reports whether the if / switch at block[i] is followed by the emit
+// of a live ExprPhi (mem2reg places the merge phis right after the statement). Such a
+// statement decides which incoming the phi takes, even when its branches are empty.
+func selectsLivePhi(fn *ir.Function, block ir.Block, i int, live []bool) bool {
+	for j := i + 1; j < len(block); j++ {
+		em, ok := block[j].Kind.(ir.StmtEmit)
+		if !ok {
+			return false
+		}
+		phiOnly := em.Range.Start < em.Range.End
+		for h := em.Range.Start; h < em.Range.End; h++ {
+			if int(h) >= len(fn.Expressions) {
+				return false
+			}
+			if _, isPhi := fn.Expressions[h].Kind.(ir.ExprPhi); !isPhi {
+				phiOnly = false
+				continue
+			}
+			if int(h) < len(live) && live[h] {
+				return true
+			}
+		}
+		if !phiOnly {
+			return false
+		}
+	}
+	return false
 }
 
 // unmarkExpr unmarks an expression and all sub-expressions that are
